@@ -59,6 +59,9 @@ def check_selection(ctx, rule):
                     elts = _literal_elts(val.value)
                     if elts is not None and -len(elts) <= val.slice.value < len(elts):
                         val = elts[val.slice.value]
+                    elif elts is not None:
+                        n -= 1
+                        continue        # the list is known to be shorter on this path: the path cannot be taken (the length test before it failed)
                 v = norm(val)
                 before = [(x.text, x.value) for x in p.events[:i] if x.kind == 'decide']
                 if v == 'None':
@@ -212,7 +215,7 @@ def run(ctx):
     from . import common as _cm6
     _cm6.check_not_mutated_in_place(ctx, 'C06.4', 'display_matcher', 'the current filter')
     check_selection(ctx, 'C06.4')
-    check_writers(ctx, 'C06.4', CTRL, 'current_connection', [('Controller.__init__', lambda w: w.fresh), ('Controller.connection_command', None)], floor=3)
+    check_writers(ctx, 'C06.4', CTRL, 'current_connection', [('Controller.__init__', lambda w: w.fresh), ('Controller.connection_command', None)], floor=2)      # (the initial value and at least one store by the command; the command's own stores are judged by check_selection)
 
     # ---- C06.5 matchers are pure ------------------------------------------------------------------------------------------
     mbase = repo.cls('core.matcher.Matcher')
@@ -226,6 +229,13 @@ def run(ctx):
         ctx.check(not ws, 'C06.5', 'pure:%s' % m.qual, m.loc(), '%s.matches writes nothing' % c.name,
                   '%s.matches has side effects: %s' % (c.name, [(w.func.short, w.attr, w.kind) for w in ws][:4]))
     ctx.floor('C06.5', nm, 15, 'matches() implementations')
+    # a message that raises on its way through ConnectionImpl.message (after it was put on the connection's record, before the listeners hear
+    # of it) is recorded but never shown and never reaches the record `list` reads: which errors can take that way out is the pass-through
+    # rule of C08.2 - its findings are findings here
+    from . import common as _cm6b, c08 as _c08
+    _cm6b.lift(ctx, 'C06.3', 'message-not-lost-to-an-error', _c08, 'C08', ('C08.2',), 'a decoded message must reach the listeners: an error raised while it is resolved drops it from the live view',
+               key_filter=lambda k: 'passthrough-raise:' in k, floor=1)
+
     return ('scenario evaluation of the live-view guard, who-calls tables of the display route, transitive write sets of the '
             'filter/selection commands and of all matches() implementations. Decided: %s. Undecided: %s'
             % ('; '.join(ctx.decided), '; '.join(ctx.undecided)))
